@@ -2687,6 +2687,15 @@ def common_edges(codec):
     E.append(('enum-item-hyphen-mapped', 'accept', [('A', T('enum', items=[('a-b', 1), ('c', 5)], explicit=True, ext=None))], {}))
     E.append(('enum-default-hyphen', 'accept', [('A', seq(member('e', T('enum', items=[('a-b', 0), ('c', 1)], explicit=False, ext=None), default='a-b'), member('z', B)))], {}))
     E.append(('type-names-underscore-collision', 'accept', [('Ab-c', B), ('AbC', I3)], {}))
+    # sibling constructs of different widths inside ONE generated function (loop indices / choice selectors / length variables are
+    # function-level C locals: a wide sibling after a narrow one must still get a wide enough variable)
+    E.append(('siblings-seqof-narrow-then-wide', 'accept',
+              [('A', seq(member('a', T('seqof', elem=B, lo=0, hi=3)), member('b', T('seqof', elem=B, lo=0, hi=300)), member('c', T('seqof', elem=I3, lo=1, hi=2)))),
+               ('B2', seq(member('p', T('octs', lo=0, hi=3)), member('q', T('octs', lo=0, hi=300)), member('r', T('seqof', elem=T('octs', lo=0, hi=2), lo=0, hi=260))))], {}))
+    E.append(('siblings-choice-narrow-then-wide', 'accept',
+              [('A', seq(member('a', T('choice', alts=[('x', B), ('y', T('null'))], ext=None)),
+                         member('b', T('choice', alts=[('e%03d' % i, T('null') if i % 7 else I3) for i in range(300)], ext=None)),
+                         member('c', T('choice', alts=[('u', I3), ('v', B), ('w', T('null'))], ext=None))))], {}))
     E.append(('zero-size-octet-string', 'accept', [('A', seq(member('a', T('octs', lo=0, hi=0)), member('b', B)))], {}))
     E.append(('empty-sequence-member', 'accept', [('A', seq(member('a', seq()), member('b', B))), ('B2', seq()), ('C', T('choice', alts=[('a', T('null')), ('b', T('null'))], ext=None))], {}))
     return E
